@@ -61,6 +61,11 @@ CHECKS = {
          "Each of the 26 shapes and transforms is instantiated over a full Cartesian grid of its parameters (centres, radii, offsets, angles, named and general axes and planes, negative and non-uniform scales), imported and evaluated at a 125-point asymmetric grid; primitives and CSG are compared by sign with closed-form geometry away from the boundary, transforms via T(s)(p) = s(T^-1 p) on an asymmetric probe to 1e-4; every sequence of up to three transforms from an 8-step alphabet is compared with the composed reference.",
          "Trusted: my reading of the doc comments (listed in the evidence assumptions) and the f64 reference geometry.",
          "DESIGN.md §4 C16"),
+ "C17": ("model_checking",
+         "grammar-exhaustive enumeration of scripts (expressions to depth 2; shape call forms x omitted-default subsets x argument orders), engine result vs. Rust-built tree",
+         "Every script the grammar of tree expressions generates to depth 2 (all operators and functions, tree/number/number-on-the-left operands, unary minus, arrays in tree position) and, for 16 shapes covering each call-form class, the map form with every subset of defaulted fields omitted, the positional form in every argument order, tree-first, chained and two-tree forms, numeric spellings, vec2-to-vec3 promotion and reducers with 2..8 arguments or an array, is evaluated by the real engine and compared structurally with the tree built by the corresponding Rust calls; comparison operators on trees and unknown / missing fields must be errors.",
+         "Trusted: the generator's pairing of script text with Rust calls; 16 of 26 shapes; depth 2.",
+         "DESIGN.md §4 C17"),
  "C19": ("model_checking",
          "exhaustive enumeration of linear systems x fixed-parameter subsets x starts on the real solver (VM and JIT), vs. residual and key-set oracles",
          "Five matrix families with known integer solutions are solved for every number of unknowns (1..=40 thorough) with every subset of parameters fixed for n <= 6 (2^n, including all and none) and structured subsets above, from a start away from the solution and from the exact solution, on both backends; the result keys must be exactly the free parameters, the exact start must come back bit-for-bit, the residual (fixed parameters at their values) must be below 1e-3 relative, backends must agree, and nothing may panic.",
